@@ -156,6 +156,15 @@ func report(eng *Engine, o runOpts, results []*FuncResult, all []*Obligation, tL
 		tb = append(tb, t)
 	}
 	sort.Strings(tb)
+	if tb == nil {
+		tb = []string{}
+	}
+	if kfLines == nil {
+		kfLines = []string{}
+	}
+	if outside == nil {
+		outside = []string{}
+	}
 	base := []string{
 		"sequential semantics: the body of a function is executed by one thread; interference only at modelled lock boundaries",
 		"machine integers exact (bit-vectors of the Go width); floating point uninterpreted",
